@@ -245,6 +245,25 @@ fn reject_after_valid() {
 // @verif property=C12,C06,C01 tier=quick timeout=1500 mem=28 bounds="valid line '10,$b', then the always-rejected line '20,x,...' at another time: pending group and lists untouched" covers=4
 oracle_proof!(c12_reject_after_valid, 32, reject_after_valid());
 
+/// The same with CONCRETE lines only (cheap guard: the run is almost entirely constant-folded).
+fn reject_after_valid_concrete() {
+    let mut ctx = new_ctx();
+    let r1 = TimingPoints::parse_timing_points(&mut ctx.state, "10,500,4,2,0,50,1,0");
+    assert!(r1.is_ok());
+    let before = observe(&ctx.state);
+    assert!(before.1 && before.2 && before.3 && before.4, "the first line's points must be pending");
+    let r2 = TimingPoints::parse_timing_points(&mut ctx.state, "20,x,4,1,0,100,1,0");
+    assert!(r2.is_err());
+    assert!(observe(&ctx.state) == before, "a rejected timing line changed the parser state");
+    let r3 = TimingPoints::parse_timing_points(&mut ctx.state, "20,250,4,1,0,100,0");
+    assert!(r3.is_err() || r3.is_ok());
+    kani::cover!(true, "reached");
+    core::mem::forget(ctx.state);
+}
+
+// @verif property=C12,C06,C01 tier=quick timeout=900 mem=16 bounds="CONCRETE lines '10,500,4,2,0,50,1,0' then the rejected '20,x,...': pending group and lists untouched (mode / defaults symbolic)"
+oracle_proof!(c12_reject_after_valid_concrete, 32, reject_after_valid_concrete());
+
 // ---- two lines, same time (one group) ----
 // @verif property=C12 tier=thorough timeout=3400 mem=40 bounds="2 lines at time 10: timing change (short line) then inherited (full line, all numeric fields symbolic)"
 oracle_proof!(c12_two_same_ti, 32, two_lines(10.0, Shape::Short, "10,$b", 10.0, Shape::FullInherited, "10,$h,$i,$j,$k,$l,0,$m"));
